@@ -7,6 +7,9 @@
 //!
 //! case: (b CAP (sp I…) (win W…) (ops OP…))   — see lean/EmitModel/Driver/Batcher.lean for the op grammar and output format.
 //! Watcher ids ≥ 5000 register a callback that panics after recording that it ran.
+//! The channel is a harness-defined type (`Ch`, a `Vec<u64>` behind `emit_batcher::Channel`): windows W ::= (n K …) |
+//! (l K …) | (v K …) script sender ops from INSIDE the K-th call the receiver itself makes of `Channel::new` / `len` /
+//! `with_capacity`; whether the state lock is held there is probed (`lock_is_free`), `+held` = nothing can run there.
 //!
 //! Implementation-side oracles (computed from the observed I/O alone, no model):
 //!   c06-partition     every first-attempt batch is exactly the accepted-and-not-truncated items not yet delivered,
@@ -34,9 +37,9 @@
 //! that never returned — the reproducer), and after two such schedules the generator stops executing the
 //! implementation and draws the remaining schedules blindly.
 
-use emit_batcher::{BatchError, ChannelMetrics, Receiver, Sender};
+use emit_batcher::{BatchError, Channel, ChannelMetrics, Receiver, Sender};
 use hcommon::{Rng, Sexp, Stream, Tier};
-use std::cell::RefCell;
+use std::cell::{Cell, RefCell};
 use std::collections::{BTreeMap, BTreeSet};
 use std::future::Future;
 use std::pin::Pin;
@@ -158,6 +161,198 @@ const RETRY_MAX: usize = 10;
 const RETRY_CAP_NS: u128 = 10_000_000_000;
 const RETRY_STEP_NS: u128 = 700_000_000;
 
+// ------------------------------------------------------------------ the channel type (user code the receiver calls)
+
+/// The channel the scripted streams run on: a `Vec<u64>` behind the `emit_batcher::Channel` trait. `Channel` is
+/// USER code, like `wait`, `on_batch` and the watcher callbacks: whenever `Receiver::exec` itself calls one of its
+/// methods (`new`, `len`, `with_capacity` — the receiver calls no other), the schedule may script sender ops to be
+/// performed from INSIDE that call (windows `(n K …)`, `(l K …)`, `(v K …)`: the K-th receiver-side call of `new` /
+/// `len` / `with_capacity`, counted from 0 over the whole case). Whether the implementation holds its state lock at
+/// that call is OBSERVED, not assumed (`lock_is_free`): if it does, nothing can be done on the channel from there
+/// (std's Mutex is not re-entrant) and the window prints `+held`; if it does not, the ops run there — sender steps
+/// landing at that very point of the receiver's code. The model predicts both (Model/Batcher.lean `chanCallsIn`,
+/// `chanCallsAfter`): the calls inside the critical section of the hand-off are held, the others are interleaving
+/// points between receiver labels.
+pub struct Ch(pub Vec<u64>);
+
+#[derive(Clone, Copy, PartialEq, Eq, PartialOrd, Ord, Debug)]
+enum ChanCall {
+    New,
+    Len,
+    WithCap,
+}
+impl ChanCall {
+    fn tag(self) -> &'static str {
+        match self {
+            ChanCall::New => "n",
+            ChanCall::Len => "l",
+            ChanCall::WithCap => "v",
+        }
+    }
+}
+
+impl Channel for Ch {
+    type Item = u64;
+    fn new() -> Self {
+        chan_call(ChanCall::New);
+        Ch(Vec::new())
+    }
+    fn with_capacity(capacity_hint: usize) -> Self {
+        chan_call(ChanCall::WithCap);
+        Ch(Vec::with_capacity(capacity_hint.min(1024)))
+    }
+    fn push(&mut self, item: u64) {
+        self.0.push(item)
+    }
+    fn len(&self) -> usize {
+        chan_call(ChanCall::Len);
+        self.0.len()
+    }
+    // `is_empty` is left to the trait's default (`len() == 0`)
+    fn clear(&mut self) {
+        self.0.clear()
+    }
+}
+
+thread_local! {
+    /// true while the interpreter thread runs `Receiver::exec`'s OWN code: inside the poll of the exec future, minus
+    /// everything the harness supplied (the wait / on_batch closures, their gate futures, the watcher callbacks and
+    /// the windows). A `Channel` method called while this is set is a receiver-side call.
+    static IN_RX: Cell<bool> = const { Cell::new(false) };
+}
+
+/// Scope guard: harness code entered from inside the receiver (restores the flag on the way out, also by unwinding).
+struct Outside(bool);
+impl Outside {
+    fn enter() -> Outside {
+        Outside(IN_RX.with(|c| c.replace(false)))
+    }
+}
+impl Drop for Outside {
+    fn drop(&mut self) {
+        IN_RX.with(|c| c.set(self.0));
+    }
+}
+
+/// Scope guard: the receiver's code is entered (the exec future is polled).
+struct Inside(bool);
+impl Inside {
+    fn enter() -> Inside {
+        Inside(IN_RX.with(|c| c.replace(true)))
+    }
+}
+impl Drop for Inside {
+    fn drop(&mut self) {
+        IN_RX.with(|c| c.set(self.0));
+    }
+}
+
+/// One lock probe: a helper thread that takes the channel's state lock once (through the public metrics source).
+struct Probe {
+    tid: Arc<std::sync::atomic::AtomicU64>,
+    /// 0 = not there yet, 1 = got the lock (and released it), 2 = the thread ended without getting it
+    state: Arc<std::sync::atomic::AtomicU8>,
+}
+
+/// Does the implementation hold its state lock right now (we are inside a `Channel` method it called)?
+/// POSITIVE both ways, no time-out guess: a helper thread takes the lock through the public API
+/// (`ChannelMetrics::sample_metrics` reads the queue length under it). `free` = it got it. `held` = the helper —
+/// and every earlier helper of this case that has not finished — is blocked in the kernel (`/proc` state `S`, the
+/// futex wait of `Mutex::lock`) in ≥ 3 consecutive looks spanning ≥ 400 µs; a helper that is merely waiting for a
+/// CPU is `R` and proves nothing. A helper left blocked finishes by itself as soon as the receiver unlocks.
+fn lock_is_free(ctx: &CbCtx) -> bool {
+    use std::sync::atomic::Ordering::SeqCst;
+    let probe = Probe { tid: Arc::new(Default::default()), state: Arc::new(Default::default()) };
+    let (tid, state, metrics) = (probe.tid.clone(), probe.state.clone(), ctx.probe.clone());
+    let spawned = std::thread::Builder::new().stack_size(64 << 10).spawn(move || {
+        struct Ended(Arc<std::sync::atomic::AtomicU8>);
+        impl Drop for Ended {
+            fn drop(&mut self) {
+                let _ = self.0.compare_exchange(0, 2, SeqCst, SeqCst);
+            }
+        }
+        let ended = Ended(state);
+        tid.store(super::guard::my_tid(), SeqCst);
+        struct Nop;
+        impl emit::metric::sampler::Sampler for Nop {
+            fn metric<P: emit::Props>(&self, _: emit::metric::Metric<P>) {}
+        }
+        use emit::metric::Source;
+        metrics.sample_metrics(Nop);
+        ended.0.store(1, SeqCst);
+    });
+    if spawned.is_err() {
+        return false;
+    }
+    let blocked = |p: &Probe| {
+        let t = p.tid.load(SeqCst);
+        t != 0 && super::guard::thread_state(t) == Some('S')
+    };
+    let verdict = super::guard::expected_wait(|| {
+        let started = std::time::Instant::now();
+        let mut looks = 0u32;
+        let mut since: Option<std::time::Instant> = None;
+        loop {
+            match probe.state.load(SeqCst) {
+                1 => return true,
+                2 => return false, // the lock is poisoned: nothing can be done on this channel
+                _ => {}
+            }
+            let earlier_blocked = ctx.probes.borrow().iter().all(|p| p.state.load(SeqCst) != 0 || blocked(p));
+            if blocked(&probe) && earlier_blocked {
+                looks += 1;
+                let s = *since.get_or_insert_with(std::time::Instant::now);
+                if looks >= 3 && s.elapsed() >= Duration::from_micros(400) {
+                    return probe.state.load(SeqCst) == 1;
+                }
+            } else {
+                looks = 0;
+                since = None;
+            }
+            if started.elapsed() > Duration::from_secs(5) {
+                return false; // no /proc, exotic states: never touch a channel whose lock may be held
+            }
+            std::thread::sleep(Duration::from_micros(100));
+        }
+    });
+    let mut probes = ctx.probes.borrow_mut();
+    probes.retain(|p| p.state.load(SeqCst) == 0);
+    probes.push(probe);
+    verdict
+}
+
+/// A `Channel` method was called. If the receiver's own code called it and the schedule has a window for this call,
+/// perform the window's sender ops from right here — provided the state lock is free.
+fn chan_call(kind: ChanCall) {
+    if !IN_RX.with(|c| c.get()) {
+        return;
+    }
+    let Some(ctx) = cb_ctx() else {
+        return;
+    };
+    let idx = {
+        let mut n = ctx.chan_counts.borrow_mut();
+        let e = n.entry(kind).or_insert(0usize);
+        *e += 1;
+        *e - 1
+    };
+    let Some(ops) = ctx.chans.borrow_mut().remove(&(kind, idx)) else {
+        return;
+    };
+    if ctx.core.borrow().hung.get() {
+        return;
+    }
+    let _o = Outside::enter();
+    if lock_is_free(&ctx) {
+        for op in &ops {
+            let tag = sender_op(&ctx.core, &ctx.sh, op);
+            log(&ctx.sh, Ev::Win(tag));
+        }
+    } else {
+        log(&ctx.sh, Ev::Win("held".into()));
+    }
+}
+
 // ------------------------------------------------------------------ schedule
 
 #[derive(Clone, Debug)]
@@ -257,13 +452,21 @@ struct Windows {
     calls: BTreeMap<usize, Vec<Op>>,
     waits: BTreeMap<usize, Vec<Op>>,
     cbs: BTreeMap<u64, Vec<Op>>,
+    /// `chans[(M, k)]` runs from INSIDE the k-th receiver-side call of `Channel` method M (see `Ch`)
+    chans: BTreeMap<(ChanCall, usize), Vec<Op>>,
 }
 
 /// What a running callback needs to perform sender ops: the callbacks must be `Send + 'static`, so they cannot
 /// capture the (single-threaded) interpreter state; it lives here for the duration of a case.
 struct CbCtx {
     core: Rc<RefCell<Core>>,
+    sh: Shared,
     cbs: RefCell<BTreeMap<u64, Vec<Op>>>,
+    /// the channel windows not yet used, the receiver-side `Channel` calls counted so far, and the lock probes
+    chans: RefCell<BTreeMap<(ChanCall, usize), Vec<Op>>>,
+    chan_counts: RefCell<BTreeMap<ChanCall, usize>>,
+    probe: Arc<ChannelMetrics<Ch>>,
+    probes: RefCell<Vec<Probe>>,
     /// > 0 while a `when_flushed` / `when_empty` call is on the stack
     in_sender_call: std::cell::Cell<usize>,
 }
@@ -313,6 +516,9 @@ fn parse_case(line: &str) -> Option<Case> {
             "c" => win.calls.insert(idx, ops).is_some(),
             "w" => win.waits.insert(idx, ops).is_some(),
             "cb" => win.cbs.insert(idx as u64, ops).is_some(),
+            "n" => win.chans.insert((ChanCall::New, idx), ops).is_some(),
+            "l" => win.chans.insert((ChanCall::Len, idx), ops).is_some(),
+            "v" => win.chans.insert((ChanCall::WithCap, idx), ops).is_some(),
             _ => return None,
         };
         if dup {
@@ -400,11 +606,12 @@ static OUTCOME_FORM: std::sync::atomic::AtomicUsize = std::sync::atomic::AtomicU
 /// "Retry exactly `rem`", built in rotation through every public way a processor can arrive at it (directly, by
 /// attaching a remainder to a non-retryable error, by replacing the remainder of a retryable one, by taking an error
 /// apart and rebuilding it): the receiver must re-deliver `rem` whichever was used (theorem C06.outcome_forms_agree).
-fn retry_outcome(rem: Vec<u64>) -> BatchError<Vec<u64>> {
+fn retry_outcome(rem: Vec<u64>) -> BatchError<Ch> {
+    let rem = Ch(rem);
     match OUTCOME_FORM.fetch_add(1, std::sync::atomic::Ordering::Relaxed) % 4 {
         0 => BatchError::retry(E, rem),
-        1 => BatchError::<Vec<u64>>::no_retry(E).map_retryable(|_| Some(rem)),
-        2 => BatchError::retry(E, vec![u64::MAX]).map_retryable(|r| r.map(|_| rem)),
+        1 => BatchError::<Ch>::no_retry(E).map_retryable(|_| Some(rem)),
+        2 => BatchError::retry(E, Ch(vec![u64::MAX])).map_retryable(|r| r.map(|_| rem)),
         _ => match BatchError::retry(E, rem).try_into_retryable() {
             Ok(r) => BatchError::retry(E, r),
             Err(e) => e,
@@ -413,11 +620,11 @@ fn retry_outcome(rem: Vec<u64>) -> BatchError<Vec<u64>> {
 }
 
 /// "Failed, nothing to retry", likewise.
-fn fail_outcome() -> BatchError<Vec<u64>> {
+fn fail_outcome() -> BatchError<Ch> {
     match OUTCOME_FORM.fetch_add(1, std::sync::atomic::Ordering::Relaxed) % 3 {
         0 => BatchError::no_retry(E),
-        1 => BatchError::retry(E, vec![u64::MAX]).map_retryable(|_| None),
-        _ => match BatchError::<Vec<u64>>::no_retry(E).try_into_retryable() {
+        1 => BatchError::retry(E, Ch(vec![u64::MAX])).map_retryable(|_| None),
+        _ => match BatchError::<Ch>::no_retry(E).try_into_retryable() {
             Ok(r) => BatchError::retry(E, r),
             Err(e) => e,
         },
@@ -426,8 +633,9 @@ fn fail_outcome() -> BatchError<Vec<u64>> {
 
 struct BatchGate(Shared);
 impl Future for BatchGate {
-    type Output = Result<(), BatchError<Vec<u64>>>;
+    type Output = Result<(), BatchError<Ch>>;
     fn poll(self: Pin<&mut Self>, _: &mut Context<'_>) -> Poll<Self::Output> {
+        let _o = Outside::enter();
         let mut sh = self.0.lock().unwrap();
         match sh.batch_release.take() {
             None => Poll::Pending,
@@ -449,6 +657,7 @@ struct WaitGate(Shared);
 impl Future for WaitGate {
     type Output = ();
     fn poll(self: Pin<&mut Self>, _: &mut Context<'_>) -> Poll<()> {
+        let _o = Outside::enter();
         let mut sh = self.0.lock().unwrap();
         if sh.wait_release {
             sh.wait_release = false;
@@ -469,6 +678,7 @@ struct Cb {
 }
 impl Cb {
     fn run(mut self) {
+        let _o = Outside::enter();
         self.ran = true;
         let ev = if self.flush { Ev::Fired(self.id) } else { Ev::FiredEmpty(self.id) };
         log(&self.sh, ev);
@@ -489,6 +699,7 @@ impl Cb {
 }
 impl Drop for Cb {
     fn drop(&mut self) {
+        let _o = Outside::enter();
         if !self.ran && self.flush {
             if let Ok(mut sh) = self.sh.lock() {
                 sh.log.push(Ev::Dropped(self.id));
@@ -507,7 +718,7 @@ impl emit::metric::sampler::Sampler for Sample {
     }
 }
 
-fn sample(m: &ChannelMetrics<Vec<u64>>) -> impl Fn(&str) -> usize {
+fn sample(m: &ChannelMetrics<Ch>) -> impl Fn(&str) -> usize {
     use emit::metric::Source;
     let s = Sample(Default::default());
     m.sample_metrics(&s);
@@ -704,11 +915,11 @@ impl Oracle {
 /// What the schedule interpreter and the closures passed to `exec` share (single thread; the closures run inside
 /// `poll`, during which the interpreter holds no borrow).
 struct Core {
-    sender: Option<Arc<Sender<Vec<u64>>>>,
+    sender: Option<Arc<Sender<Ch>>>,
     /// a sampling op did not return within the watchdog limit: the state mutex is held for good, every further op
     /// on this channel would block too — they are skipped
     hung: std::cell::Cell<bool>,
-    metrics: ChannelMetrics<Vec<u64>>,
+    metrics: ChannelMetrics<Ch>,
 }
 
 struct World {
@@ -920,23 +1131,30 @@ fn run_window(core: &Rc<RefCell<Core>>, sh: &Shared, ops: Option<&Vec<Op>>) {
 
 impl World {
     fn new(cap: usize, sp: Vec<usize>, win: Windows) -> World {
-        let (sender, receiver): (Sender<Vec<u64>>, Receiver<Vec<u64>>) = emit_batcher::bounded(cap);
+        let (sender, receiver): (Sender<Ch>, Receiver<Ch>) = emit_batcher::bounded(cap);
         let metrics = sender.metric_source();
+        let probe = Arc::new(sender.metric_source());
         let core = Rc::new(RefCell::new(Core { sender: Some(Arc::new(sender)), metrics, hung: std::cell::Cell::new(false) }));
+        let sh: Shared = Arc::new(Mutex::new(Sh { sp, ..Default::default() }));
         CB_CTX.with(|c| {
             *c.borrow_mut() = Some(Rc::new(CbCtx {
                 core: core.clone(),
+                sh: sh.clone(),
                 cbs: RefCell::new(win.cbs.clone()),
+                chans: RefCell::new(win.chans.clone()),
+                chan_counts: RefCell::new(BTreeMap::new()),
+                probe,
+                probes: RefCell::new(Vec::new()),
                 in_sender_call: std::cell::Cell::new(0),
             }))
         });
-        let sh: Shared = Arc::new(Mutex::new(Sh { sp, ..Default::default() }));
         let win = Rc::new(win);
         let fut = {
             let (sh_w, core_w, win_w) = (sh.clone(), core.clone(), win.clone());
             let (sh_b, core_b, win_b) = (sh.clone(), core.clone(), win.clone());
             receiver.exec(
                 move |d: Duration| {
+                    let _o = Outside::enter();
                     let idx = sh_w.lock().unwrap().nwaits;
                     run_window(&core_w, &sh_w, win_w.waits.get(&idx));
                     let mut s = sh_w.lock().unwrap();
@@ -947,7 +1165,9 @@ impl World {
                     drop(s);
                     WaitGate(sh_w.clone())
                 },
-                move |batch: Vec<u64>| {
+                move |batch: Ch| {
+                    let _o = Outside::enter();
+                    let batch = batch.0;
                     let idx = sh_b.lock().unwrap().ncalls;
                     run_window(&core_b, &sh_b, win_b.calls.get(&idx));
                     let mut s = sh_b.lock().unwrap();
@@ -980,6 +1200,7 @@ impl World {
     fn poll(&mut self) {
         if let Some(f) = self.fut.as_mut() {
             self.started = true;
+            let _i = Inside::enter();
             let mut cx = Context::from_waker(Waker::noop());
             match hcommon::catch(|| f.as_mut().poll(&mut cx)) {
                 Some(Poll::Ready(())) => {
@@ -1322,6 +1543,64 @@ fn gen_one(rng: &mut Rng, tier: Tier, interpret: bool, partial: &Mutex<Partial>)
             }
         }
     }
+    // sender ops from inside the receiver's own calls of the user-supplied `Channel` methods (a quarter of the
+    // schedules): `new` (index 0 = when exec starts; then one per hand-off — inside the critical section on the
+    // unchanged tree, where the window can only observe `held`), `len` (one inside the critical section, one after the
+    // when_empty callbacks of every hand-off, one before the re-allocation for a non-empty batch, one per returned
+    // remainder) and `with_capacity` (one per non-empty batch). "send, then ask to be told when it is flushed" is the
+    // payload that matters most at a hand-off, so it is the most frequent one.
+    if rng.chance(1, 4) {
+        let mut next_item = 6000u64;
+        let mut next_w = 3500u64;
+        let mut gen_ops = |rng: &mut Rng| -> Vec<Op> {
+            if rng.chance(1, 2) {
+                next_item += 1;
+                next_w += 1;
+                return vec![Op::Send(next_item), Op::Flush(next_w)];
+            }
+            (0..rng.range(1, 3))
+                .map(|_| match rng.below(12) {
+                    0..=3 => {
+                        next_item += 1;
+                        Op::Send(next_item)
+                    }
+                    4 => {
+                        next_item += 1;
+                        Op::Try(next_item)
+                    }
+                    5 => {
+                        next_item += 1;
+                        Op::Bsend(pick_bk(rng), next_item)
+                    }
+                    6..=8 => {
+                        next_w += 1;
+                        Op::Flush(next_w)
+                    }
+                    9 => {
+                        next_w += 1;
+                        Op::Empty(next_w)
+                    }
+                    10 => Op::Q,
+                    _ => Op::DropSender,
+                })
+                .collect()
+        };
+        for _ in 0..rng.range(1, 2) {
+            let k = if rng.chance(1, 6) { 0 } else { rng.range(1, if idle_heavy { 14 } else { 6 }) as usize };
+            let ops = gen_ops(rng);
+            win.chans.entry((ChanCall::New, k)).or_insert(ops);
+        }
+        for _ in 0..rng.range(0, 3) {
+            let k = rng.range(0, if idle_heavy { 30 } else { 16 }) as usize;
+            let ops = gen_ops(rng);
+            win.chans.entry((ChanCall::Len, k)).or_insert(ops);
+        }
+        if rng.chance(1, 2) {
+            let k = rng.range(0, 4) as usize;
+            let ops = gen_ops(rng);
+            win.chans.entry((ChanCall::WithCap, k)).or_insert(ops);
+        }
+    }
     // sender ops from inside callbacks (half of the schedules): decided per registered watcher, see below;
     // the watchers registered inside windows get theirs now
     let with_cbs = rng.chance(1, 2);
@@ -1379,6 +1658,7 @@ fn gen_one(rng: &mut Rng, tier: Tier, interpret: bool, partial: &Mutex<Partial>)
             .calls
             .values()
             .chain(win.waits.values())
+            .chain(win.chans.values())
             .flatten()
             .filter_map(|o| match o {
                 Op::Flush(w) | Op::Empty(w) => Some(*w),
@@ -1586,6 +1866,11 @@ fn render_case(cap: usize, sp: &[usize], win: &Windows, ops: &[Op]) -> String {
                         let mut v = vec![Sexp::num(*w)];
                         v.extend(o.iter().map(show_op));
                         Sexp::tagged("cb", v)
+                    }))
+                    .chain(win.chans.iter().map(|((k, i), o)| {
+                        let mut v = vec![Sexp::num(*i)];
+                        v.extend(o.iter().map(show_op));
+                        Sexp::tagged(k.tag(), v)
                     }))
                     .collect(),
             ),
